@@ -5,6 +5,7 @@ import (
 	"fmt"
 	"io"
 	"log"
+	"math/rand"
 	"os"
 	"strings"
 	"testing"
@@ -513,6 +514,275 @@ func checkCase(c caseCase) (o pbt.Outcome, err error) {
 }
 
 func TestCaseUnalign(t *testing.T) { pbt.Run(t, genCase, checkCase) }
+
+// ---- prior use, then in-place edits, then a transform again ----------------------------------
+//
+// The transforms are claimed for every alignment / sequence set, whatever was done to the object
+// before. Here a transform of the property is first applied (and judged), then the object is edited
+// IN PLACE by a drawn sequence of the library's own mutators (no model of the mutators is needed:
+// the content they leave is read back), then a transform is applied again and judged by the same
+// independent model on that content, as a freshly built object with the same rows would be.
+
+type histEdit struct {
+	Kind  string  `json:"kind"`
+	Row   int     `json:"row,omitempty"`  // taken modulo the number of rows
+	Site  int     `json:"site,omitempty"` // taken modulo the length of the row
+	Len   int     `json:"len,omitempty"`
+	Char  string  `json:"char,omitempty"` // one residue of the alphabet of the case
+	Char2 string  `json:"char2,omitempty"`
+	Rate  float64 `json:"rate,omitempty"`
+	Flag  bool    `json:"flag,omitempty"`
+}
+
+type histRound struct {
+	Edits  []histEdit `json:"edits"`
+	Op     string     `json:"op"` // transform applied (and judged) after the edits
+	Subset []string   `json:"subset,omitempty"`
+}
+
+type histCase struct {
+	Ali    gen.Ali     `json:"ali"`
+	Bag    bool        `json:"bag"`
+	Seed   int64       `json:"seed"`
+	Rounds []histRound `json:"rounds"` // the first round has no edit: it is the prior use
+}
+
+var histEditsAlign = []string{"replacechar", "setchar", "rawwrite-index", "rawwrite-name", "mask", "maskunique", "maskoccurences",
+	"mutate", "matchchars", "swap", "replace", "revcomp", "seq-reverse", "seq-complement", "sort"}
+var histEditsBag = []string{"setchar", "rawwrite-index", "rawwrite-name", "replace", "revcomp", "seq-reverse", "seq-complement", "sort"}
+
+func genHist(t *rapid.T) histCase {
+	var c histCase
+	c.Bag = rapid.IntRange(0, 3).Draw(t, "bag") == 0
+	c.Seed = rapid.Int64Range(1, 1<<30).Draw(t, "seed")
+	n := rapid.IntRange(1, 5).Draw(t, "rows")
+	l := rapid.IntRange(1, 15).Draw(t, "L")
+	chars := dnaChars
+	c.Ali.Alphabet = "nt"
+	ops := []string{"toupper", "tolower", "toupper", "tolower", "revcomp", "revcomp-subset", "unalign"}
+	if rapid.IntRange(0, 3).Draw(t, "protein") == 0 {
+		chars = gen.BothCases(gen.AA20) + "XxBbZz-*"
+		c.Ali.Alphabet = "aa"
+		ops = []string{"toupper", "tolower", "unalign"}
+	}
+	for i := 0; i < n; i++ {
+		li := l
+		if c.Bag {
+			li = rapid.IntRange(0, 15).Draw(t, "Li")
+		}
+		// names in an order that Sort changes
+		c.Ali.Rows = append(c.Ali.Rows, gen.Row{Name: fmt.Sprintf("s%d", (i*3+2)%7), Seq: gen.SeqN(t, chars, li)})
+	}
+	kinds := histEditsAlign
+	if c.Bag {
+		kinds = histEditsBag
+	}
+	subset := func() []string {
+		var s []string
+		for i, k := 0, rapid.IntRange(0, 3).Draw(t, "nsub"); i < k; i++ {
+			if rapid.IntRange(0, 5).Draw(t, "unk") == 0 {
+				s = append(s, "unknown")
+			} else {
+				s = append(s, c.Ali.Rows[rapid.IntRange(0, n-1).Draw(t, "which")].Name)
+			}
+		}
+		return s
+	}
+	rounds := rapid.IntRange(2, 3).Draw(t, "rounds")
+	for r := 0; r < rounds; r++ {
+		var rd histRound
+		if r > 0 {
+			for i, k := 0, rapid.IntRange(1, 3).Draw(t, "nedits"); i < k; i++ {
+				e := histEdit{Kind: rapid.SampledFrom(kinds).Draw(t, "edit")}
+				e.Row = rapid.IntRange(0, 5).Draw(t, "row")
+				e.Site = rapid.IntRange(0, 15).Draw(t, "site")
+				e.Len = rapid.IntRange(0, 15).Draw(t, "len")
+				e.Char = gen.SeqN(t, chars, 1)
+				e.Char2 = gen.SeqN(t, chars, 1)
+				e.Rate = float64(rapid.IntRange(1, 10).Draw(t, "rate")) / 10
+				e.Flag = rapid.Bool().Draw(t, "flag")
+				rd.Edits = append(rd.Edits, e)
+			}
+		}
+		rd.Op = rapid.SampledFrom(ops).Draw(t, "op")
+		if r > 0 && rapid.Bool().Draw(t, "sameop") {
+			rd.Op = c.Rounds[r-1].Op // the transform that was applied before, again
+		}
+		if rd.Op == "revcomp-subset" {
+			rd.Subset = subset()
+		}
+		c.Rounds = append(c.Rounds, rd)
+	}
+	return c
+}
+
+// applyEdit edits the object in place with one mutator of the library; whether the mutator does
+// what ITS documentation says is not judged here
+func applyEdit(sb align.SeqBag, e histEdit) error {
+	n := sb.NbSequences()
+	row := e.Row % n
+	seq, ok := sb.Sequence(row)
+	if !ok {
+		return fmt.Errorf("harness: row %d of %d not found", row, n)
+	}
+	site := -1
+	if seq.Length() > 0 {
+		site = e.Site % seq.Length()
+	}
+	al, isAlign := sb.(align.Alignment)
+	ch := e.Char[0]
+	switch e.Kind {
+	case "setchar":
+		if site >= 0 {
+			return sb.SetSequenceChar(row, site, ch)
+		}
+	case "rawwrite-index":
+		if site >= 0 {
+			seq.SequenceChar()[site] = ch
+		}
+	case "rawwrite-name":
+		s2, ok := sb.SequenceByName(seq.Name())
+		if !ok {
+			return fmt.Errorf("SequenceByName(%q) does not find row %d", seq.Name(), row)
+		}
+		if site >= 0 {
+			s2.SequenceChar()[site] = ch
+		}
+	case "replace":
+		return sb.Replace(e.Char2, e.Char, false)
+	case "revcomp":
+		if sb.Alphabet() == align.NUCLEOTIDS {
+			return sb.ReverseComplement()
+		}
+	case "seq-reverse":
+		seq.Reverse()
+	case "seq-complement":
+		if sb.Alphabet() == align.NUCLEOTIDS {
+			return seq.Complement()
+		}
+	case "sort":
+		sb.Sort()
+	}
+	if !isAlign {
+		return nil
+	}
+	switch e.Kind {
+	case "replacechar":
+		return al.ReplaceChar(seq.Name(), site, ch)
+	case "mask":
+		rep := e.Char
+		if e.Len%5 == 0 {
+			rep = []string{"", "AMBIG", "MAJ", "GAP"}[e.Site%4]
+		}
+		return al.Mask("", e.Site%(al.Length()+1), e.Len, rep, e.Flag, false)
+	case "maskunique":
+		return al.MaskUnique("", e.Char)
+	case "maskoccurences":
+		ref := ""
+		if e.Flag {
+			ref = seq.Name()
+		}
+		return al.MaskOccurences(ref, 1+e.Len%2, e.Char)
+	case "mutate":
+		al.Mutate(e.Rate)
+	case "matchchars":
+		al.ReplaceMatchChars()
+	case "swap":
+		return al.Swap(e.Rate, float64(e.Site%11)/10)
+	}
+	return nil
+}
+
+func checkHist(c histCase) (o pbt.Outcome, err error) {
+	rand.Seed(c.Seed)
+	sb := withComments(c.Ali, c.Bag)
+	inDomain := func(rows []gen.Row) bool {
+		for _, r := range rows {
+			if strings.Trim(r.Seq, dnaChars) != "" {
+				return false
+			}
+		}
+		return true
+	}
+	edited, caseEdited := false, false
+	for ri, rd := range c.Rounds {
+		pre := gen.Snapshot(sb)
+		for _, e := range rd.Edits {
+			if e := applyEdit(sb, e); e != nil {
+				return o, fmt.Errorf("round %d: in-place edit %+v refused: %v", ri, e, e)
+			}
+			o.Class("edit %s", e.Kind)
+		}
+		// the content the transform is asked to work on
+		content := gen.Snapshot(sb)
+		if len(content) != len(c.Ali.Rows) {
+			return o, fmt.Errorf("harness: %d rows after the edits, %d before", len(content), len(c.Ali.Rows))
+		}
+		if ri > 0 && !gen.SameRows(pre, content) {
+			edited = true
+			for i := range content {
+				if i < len(pre) && asciiUpper(pre[i].Seq) == pre[i].Seq && asciiUpper(content[i].Seq) != content[i].Seq ||
+					i < len(pre) && asciiLower(pre[i].Seq) == pre[i].Seq && asciiLower(content[i].Seq) != content[i].Seq {
+					caseEdited = true
+				}
+			}
+		}
+		if strings.HasPrefix(rd.Op, "revcomp") && !inDomain(content) {
+			o.Skip = true // a mutator wrote a residue outside the DNA alphabet of the quantifier
+			return o, nil
+		}
+		want := cliExpect(rd.Op, rd.Subset, content)
+		var got []gen.Row
+		switch rd.Op {
+		case "toupper":
+			sb.ToUpper()
+			got = gen.Snapshot(sb)
+		case "tolower":
+			sb.ToLower()
+			got = gen.Snapshot(sb)
+		case "revcomp":
+			if e := sb.ReverseComplement(); e != nil {
+				return o, fmt.Errorf("round %d: ReverseComplement refused: %v", ri, e)
+			}
+			got = gen.Snapshot(sb)
+		case "revcomp-subset":
+			if e := sb.ReverseComplementSequences(rd.Subset...); e != nil {
+				return o, fmt.Errorf("round %d: ReverseComplementSequences(%v) refused: %v", ri, rd.Subset, e)
+			}
+			got = gen.Snapshot(sb)
+		case "unalign":
+			got = gen.Snapshot(sb.Unalign())
+			if now := gen.Snapshot(sb); !gen.SameRows(now, content) {
+				return o, fmt.Errorf("round %d: Unalign modified its input\n got : %s\n want: %s", ri, gen.Show(now), gen.Show(content))
+			}
+		}
+		if !gen.SameRows(got, want) {
+			return o, fmt.Errorf("round %d: %s %v after %d earlier transform(s) and the in-place edits %+v differs from the model applied to the content of the object\n content: %s\n got    : %s\n want   : %s",
+				ri, rd.Op, rd.Subset, ri, rd.Edits, gen.Show(content), gen.Show(got), gen.Show(want))
+		}
+		for _, r := range want {
+			if rd.Op == "unalign" {
+				break
+			}
+			if s, ok := sb.GetSequence(r.Name); !ok || s != r.Seq {
+				return o, fmt.Errorf("round %d: GetSequence(%q) = %q,%v after %s, want %q", ri, r.Name, s, ok, rd.Op, r.Seq)
+			}
+		}
+		o.Class("transform %s", rd.Op)
+		if ri > 0 && rd.Op == c.Rounds[ri-1].Op {
+			o.Class("same transform as before the edits")
+		}
+	}
+	o.NonTrivial = edited
+	if caseEdited {
+		o.Class("edit brought back the other case after a case folding")
+	}
+	o.Class("bag=%v", c.Bag)
+	o.Class("alphabet=%s", c.Ali.Alphabet)
+	return o, nil
+}
+
+func TestAfterEdit(t *testing.T) { pbt.Run(t, genHist, checkHist) }
 
 // ---- Sequence level Reverse / Complement --------------------------------------------------
 
